@@ -79,15 +79,25 @@ def run_cvc5(smt2, timeout_ms=None):
         os.unlink(path)
 
 
+def load_factor():
+    """>= 1: how oversubscribed the machine is right now (1-minute load average per core, capped). Wall-clock budgets are multiplied by
+    it, so that a verdict does not flip to `undecided` merely because other work shares the cores."""
+    try:
+        return max(1.0, min(8.0, os.getloadavg()[0] / float(os.cpu_count() or 1)))
+    except (OSError, AttributeError):
+        return 1.0
+
+
 def solve_one(job):
     """job = (index, name, smt2, want_cvc5) -> dict"""
-    idx, name, smt2, tier = job
+    idx, name, smt2, tier = job[:4]
+    lf = job[4] if len(job) > 4 else 1.0
     import z3
     t0 = time.time()
     res = {'idx': idx, 'name': name, 'verdict': 'unknown', 'backend': None, 'model': None, 'detail': ''}
     try:
         s = z3.Solver()
-        s.set('timeout', Z3_TIMEOUT_MS * (4 if tier == 'thorough' else 1))
+        s.set('timeout', int(Z3_TIMEOUT_MS * (4 if tier == 'thorough' else 1) * lf))
         s.from_string(smt2)
         r = s.check()
         res['z3'] = str(r)
@@ -103,7 +113,7 @@ def solve_one(job):
         res['z3'] = 'error'
     if res['verdict'] == 'unknown' or (tier == 'thorough' and res['verdict'] == 'unsat' and os.environ.get('PYVC_BOTH') == '1'):
         t1 = time.time()
-        v, detail = run_cvc5(smt2, CVC5_TIMEOUT_MS * (4 if tier == 'thorough' else 1))
+        v, detail = run_cvc5(smt2, int(CVC5_TIMEOUT_MS * (4 if tier == 'thorough' else 1) * lf))
         res['cvc5'] = v
         res['cvc5_s'] = round(time.time() - t1, 3)
         if res['verdict'] == 'unknown':
@@ -122,7 +132,8 @@ def solve_one(job):
 
 def solve_all(obls, tier='quick', procs=None):
     """obls: list of objects with .name and .smt2 ; returns list of result dicts in the same order"""
-    jobs = [(i, o.name, o.smt2, tier) for i, o in enumerate(obls)]
+    lf = load_factor()
+    jobs = [(i, o.name, o.smt2, tier, lf) for i, o in enumerate(obls)]
     if not jobs:
         return []
     procs = procs or min(len(jobs), max(1, (os.cpu_count() or 4)))
